@@ -2,11 +2,12 @@ import PyxModel.Sexp
 import PyxModel.Prebuild.Decode
 import PyxModel.Prebuild.Parse
 import PyxModel.Prebuild.Supported
+import PyxModel.Prebuild.Lexical
 
 /-! driver commands of property C05:
       (c05 (<ee key letters>) (<class key letters>)) <BodyNode tree>)
     answer: ((tokens of genTokens (canon tree)) <parseGen of those tokens, as a tree | none> <canon tree>
-             <T|F: the normal form lies in the statement set the theorems cover>) -/
+             <T|F: the normal form lies in the statement set the theorems cover AND satisfies the lexical side conditions>) -/
 namespace Pyx.Driver.C05
 open Pyx Pyx.Sexp Pyx.Prebuild
 
@@ -19,7 +20,7 @@ def handle : List Sexp → Option Sexp
       let back := match parseGen c ts with
         | some b' => encBody b'
         | none => sym "none"
-      some (list [list (ts.map encTok), back, encBody cb, ofBool (supported c cb)])
+      some (list [list (ts.map encTok), back, encBody cb, ofBool (supported c cb && lexical cb)])
     | _, _ => some (list [sym "error", sym "undecodable"])
   | _ => none
 
